@@ -99,7 +99,8 @@ partial def parseItem (j : Json) : Except String Item := do
 
 def encObsJson (e : EncObs) : Json :=
   Json.mkObj [("id", e.id), ("level", e.level), ("ns", mapJson e.ns), ("rev", mapJson e.rev),
-    ("tag", unmappedStr e.tag), ("attrs", Json.arr (e.attrs.map fun a => Json.str (unmappedStr a)).toArray)]
+    ("tag", unmappedStr e.tag), ("attrs", Json.arr (e.attrs.map fun a => Json.str (unmappedStr a)).toArray),
+    ("dropped", e.dropped)]
 
 def parseCfg (j : Json) : NameCfg :=
   { process := (j.getObjValAs? Bool "process").toOption.getD true,
@@ -161,6 +162,27 @@ def handle (j : Json) : Except String Json := do
     let tab : Nat → String → Bool := fun i l => tabl.contains (i, l)
     let (m, obs) := encodeDoc v mode tab item { ns, rev }
     return Json.mkObj [("obs", Json.arr (obs.map encObsJson).toArray), ("final", stateJson m)]
+  | "encg" =>
+    -- the encoders as they are: schema oracle + mechanism flags; several flag settings in one request.
+    -- `declared` = [[ns, local], ...], `unq` = [local, ...] (unqualified attributes of every declared element);
+    -- `init` = "real": the maps given in ns/rev (state of the real converter after __init__),
+    --          "clean": user map + the declarations the root item reports (`initMapper`)
+    let item ← parseItem (← j.getObjVal? "item")
+    let declared ← (← getArr j "declared").toList.mapM parsePair
+    let unq ← getStrList j "unq"
+    let sch : EncSchema := { declared := fun q => declared.contains (q.ns, q.loc), unq := fun _ l => unq.contains l }
+    let ns ← parsePairs j "ns"
+    let rev ← parsePairs j "rev"
+    let user ← parsePairs j "user"
+    let runs ← getArr j "runs"
+    let mut out : Array Json := #[]
+    for r in runs do
+      let fl : EncFlags := { f9 := ← getBool r "f9", f10 := ← getBool r "f10", ownTag := ← getBool r "ownTag" }
+      let e0 : Mapper := if (← getStr r "init") = "clean"
+        then (initMapper mode user (Item.xmlns item)).1 else { ns, rev }
+      let (m, obs) := encodeDocG v mode fl sch item e0
+      out := out.push (Json.mkObj [("obs", Json.arr (obs.map encObsJson).toArray), ("final", stateJson m)])
+    return Json.mkObj [("runs", Json.arr out)]
   | "ops" =>
     let ns ← parsePairs j "ns"
     let m0 : Mapper := { ns, rev := mkReverse ns }
